@@ -152,7 +152,7 @@ Proof.
   assert (Hfresh : let r := alloc u g g ODefault in
             lookup (cache u) g = None ->
             Inv (fst r) /\ ext u (fst r) /\ lookup (cache (fst r)) g = Some (snd r) /\ rcache (fst r) = rcache u).
-  { intros r Hnone. unfold r, alloc. simpl. repeat split; simpl.
+  { intros r0 Hnone. unfold r0, alloc. simpl. repeat split; simpl.
     - (* inv_obj *)
       intros id x Hg. unfold get in Hg. simpl in Hg. apply nth_error_snoc in Hg. destruct Hg as [Hg|[-> ->]].
       + destruct (inv_obj _ HI id x Hg) as (A & B & C & D). repeat split; auto.
